@@ -25,7 +25,7 @@ func init() {
 		ID: "C26", Level: "exploration", Engine: "E1 cluster / btcsel (BTC vault withdrawals through e1.Harness)",
 		Rule: "A case is one history on a fresh ledger: 1-2 redeem scripts (m-of-n multisig, generated keys) bound on a regtest BTC side chain; " +
 			"UTXO sets of 1-40 outputs per script are seeded only by real deposits (SPV-proved Bitcoin transactions paying p2sh/p2wsh/bare-multisig outputs, values from dust to 2e12 sat, many equal values) " +
-			"and by change outputs returned when a built transaction is fully signed; then a plan-chosen sequence of setBtcTxParam (fee rate, minimum change, valid and invalid), " +
+			"and by the outputs (change, and the payment itself when the vault pays its own address: sibling outputs of one transaction) returned when a built transaction is fully signed; then a plan-chosen sequence of setBtcTxParam (fee rate, minimum change, valid and invalid), " +
 			"withdrawals voted by >= ceil(2N/3) validators (amount: absolute, exact subset sum, subset sum minus less than / exactly / more than the minimum change, more than the total, the total, the total or one of the largest outputs minus minchange-1/minchange/minchange+1, of the order of the fee itself), " +
 			"MultiSign rounds, replayed deposits, clean restarts, and withdrawals failed after their handler ran (hook H3) then retried. " +
 			"After EVERY transaction the stored UTXO and STXO records of every redeem key are compared with the reference model. " +
@@ -37,7 +37,7 @@ func init() {
 		Assumptions: []string{"the reported input total of a withdrawal is observed as payment + change output value of the built transaction (makeBtcTx sets change = total - payment and omits a non-positive change)", "vault keys sign whatever setBtcTxParam the plan asks for, including absurd minimum-change values"},
 		QuickRuns:   200, ThoroughRuns: 12000, QuickCap: 45, ThoroughCap: 780,
 		RequiredProbes: []string{"deposit_accepted", "withdrawal_built", "exact_match_selection", "change_at_least_min_change", "insufficient_funds_rejected",
-			"rolled_back_withdrawal", "multi_input_selection", "replacement_pass_with_spare_capacity", "selected_p2sh", "selected_p2wsh", "clean_restart", "signing_completed"},
+			"rolled_back_withdrawal", "multi_input_selection", "replacement_pass_with_spare_capacity", "sibling_outputs_strict_subset_selected", "smaller_sibling_selected_larger_left", "selected_p2sh", "selected_p2wsh", "clean_restart", "signing_completed"},
 		Generate: generate,
 		Execute:  execute,
 	})
@@ -297,13 +297,16 @@ type wdCtx struct {
 // withdraw: A = [key, amountMode, x, y, addrKind, extraVoters, forceMode, order, variant].
 func (w *world) withdraw(st kernel.Step) bool {
 	a := st.Arg
-	c := &wdCtx{ki: pickIdx(a(0), len(w.keys)), addrKind: pickIdx(a(4), 5), bound: abs(a(8))%16 != 15}
+	c := &wdCtx{ki: pickIdx(a(0), len(w.keys)), addrKind: pickIdx(a(4), 6), bound: abs(a(8))%16 != 15}
 	c.k = w.keys[c.ki]
 	var hard bool
 	c.amount, hard = w.amount(c.k, a(1), a(2), a(3))
 	w.wctr++
 	id := msgID(w.seed, w.wctr)
 	addr := payAddress(w.seed, c.addrKind, w.wctr)
+	if c.addrKind == 5 { // the vault pays itself: payment and change both return to the unspent set once signed
+		addr = c.k.v.ownAddress()
+	}
 	sink := common.NewZeroCopySink(nil)
 	sink.WriteVarBytes([]byte(addr))
 	sink.WriteUint64(uint64(c.amount))
@@ -512,6 +515,33 @@ func (w *world) onBuilt(t *e1.TxTrace, c *wdCtx, ev []interface{}) {
 			}
 		}
 	}
+	// Evidence: the unspent set holds sibling outputs (same transaction, different index) and this
+	// withdrawal selected a strict subset of them.
+	{
+		sib, got := map[[32]byte]int{}, map[[32]byte]int{}
+		for _, u := range sortedSet(k.unspent) {
+			sib[u.op.hash]++
+		}
+		var minSel, maxLeft uint64
+		for _, u := range sel {
+			got[u.op.hash]++
+		}
+		for _, u := range sel {
+			if sib[u.op.hash] > got[u.op.hash] {
+				run.Probe("sibling_outputs_strict_subset_selected")
+				minSel = u.value
+				for _, o := range sortedSet(k.unspent) {
+					if o.op.hash == u.op.hash && !seen[o.op] && o.value > maxLeft {
+						maxLeft = o.value
+					}
+				}
+				if maxLeft > minSel {
+					run.Probe("smaller_sibling_selected_larger_left")
+				}
+				break
+			}
+		}
+	}
 	// Evidence: which search decided. The first search accepts only a total equal to the payment or
 	// within [payment+minchange, 4*payment]; when 3*payment < minchange that window is empty, so a
 	// selection with change was necessarily made by the largest-first search. If it picked 3, 5, 6
@@ -532,8 +562,10 @@ func (w *world) onBuilt(t *e1.TxTrace, c *wdCtx, ev []interface{}) {
 	}
 	var change, pay int64
 	nChange := 0
-	for _, o := range tx.TxOut {
-		if bytes.Equal(o.PkScript, k.v.lock) {
+	for i, o := range tx.TxOut {
+		// output 0 is the payment (it may pay the vault itself); a later output paying the
+		// vault's own script is the change
+		if i > 0 && bytes.Equal(o.PkScript, k.v.lock) {
 			change += o.Value
 			nChange++
 		} else {
@@ -650,10 +682,16 @@ func (w *world) sign(st kernel.Step) bool {
 		return true
 	}
 	bi := pickIdx(st.Arg(0), len(w.built))
+	if st.Arg(0) >= 1000 {
+		bi = len(w.built) - 1 // the most recently built transaction
+	}
 	b := w.built[bi]
 	k := w.keys[b.key]
 	v := k.v
 	n := 1 + pickIdx(st.Arg(1), v.m-b.signed)
+	if st.Arg(1) >= 100 {
+		n = v.m - b.signed // complete the round
+	}
 	unsignedID := b.tx.TxHash()
 	hashes := txscript.NewTxSigHashes(b.tx)
 	var txs []*types.Transaction
@@ -735,6 +773,9 @@ func generate(rng *kernel.RNG, idx int, tier string) *kernel.Plan {
 	if rng.Chance(0.15) {
 		return generateWindowless(rng, cfg, nkeys, tier)
 	}
+	if rng.Chance(0.14) {
+		return generateSelfPay(rng, cfg, nkeys, tier)
+	}
 	// swarm: size class, fault kinds switched off per run
 	size := pickW(rng, 45, 35, 20) // small, medium, large UTXO sets
 	useForce := rng.Chance(0.7)
@@ -802,6 +843,9 @@ func generate(rng *kernel.RNG, idx int, tier string) *kernel.Plan {
 		ak := int64(rng.Intn(4))
 		if rng.Chance(0.03) {
 			ak = 4
+		}
+		if rng.Chance(0.07) {
+			ak = 5 // the vault's own address
 		}
 		ff := int64(0)
 		if useForce && rng.Chance(0.3) {
@@ -922,6 +966,57 @@ func generateWindowless(rng *kernel.RNG, cfg map[string]int64, nkeys int, tier s
 			steps = append(steps, kernel.Step{Op: "restart", A: []int64{int64(rng.Intn(3))}})
 		case 4:
 			steps = append(steps, kernel.Step{Op: "param", A: []int64{int64(key), rate, M + int64(rng.Intn(3)), 0}})
+		}
+	}
+	return &kernel.Plan{Cfg: cfg, Steps: steps}
+}
+
+// generateSelfPay is the workload family "sibling outputs": withdrawals whose recipient is the
+// vault's own address. Once such a transaction is fully signed, its payment output (index 0) and
+// its change output (index 1) both enter the unspent set: two outputs of one transaction with
+// different values. Later withdrawals then select one sibling, the other, or both.
+func generateSelfPay(rng *kernel.RNG, cfg map[string]int64, nkeys int, tier string) *kernel.Plan {
+	cfg["family"] = 2
+	var steps []kernel.Step
+	rate := int64(rng.Range(1, 3))
+	mc := int64(pickFrom(rng, []int{2000, 2000, 5000, 10000}))
+	fund := func(key, n int) kernel.Step {
+		a := []int64{int64(key), int64(rng.Intn(6)), int64(rng.Intn(35))}
+		for i := 0; i < n; i++ {
+			a = append(a, int64(rng.Range(10_000_000, 2_000_000_000)), int64(pickW(rng, 20, 60, 20)))
+		}
+		return kernel.Step{Op: "fund", A: a}
+	}
+	wd := func(key int, mode, x, ak int64) kernel.Step {
+		ff := int64(0)
+		if rng.Chance(0.1) {
+			ff = int64(rng.Range(1, 2))
+		}
+		return kernel.Step{Op: "withdraw", A: []int64{int64(key), mode, x, rng.Int63() % 1000003, ak, int64(rng.Intn(4)), ff, int64(rng.Intn(14)), int64(rng.Intn(15))}}
+	}
+	for k := 0; k < nkeys; k++ {
+		steps = append(steps, kernel.Step{Op: "param", A: []int64{int64(k), rate, mc, 0}}, fund(k, rng.Range(1, 3)))
+	}
+	rounds := rng.Range(2, 5)
+	for r := 0; r < rounds; r++ {
+		key := rng.Intn(nkeys)
+		// the vault pays itself a modest amount out of a large output, and the round is signed
+		steps = append(steps, wd(key, 0, int64(rng.Range(30_000, 3_000_000)), 5), kernel.Step{Op: "sign", A: []int64{1000, 100}})
+		for i, n := 0, rng.Range(1, 4); i < n; i++ {
+			switch pickW(rng, 35, 20, 15, 15, 10, 5) {
+			case 0: // the smallest output (typically the self-paid sibling) minus a boundary distance
+				steps = append(steps, wd(key, 9, rng.Int63()%5, int64(rng.Intn(4))))
+			case 1:
+				steps = append(steps, wd(key, 1, rng.Int63()%1000003, int64(rng.Intn(4))))
+			case 2:
+				steps = append(steps, wd(key, int64(rng.Range(2, 4)), rng.Int63()%1000003, int64(rng.Intn(4))))
+			case 3:
+				steps = append(steps, wd(key, 0, int64(rng.Range(5_000, 1_000_000)), int64(rng.Intn(6))))
+			case 4:
+				steps = append(steps, kernel.Step{Op: "sign", A: []int64{int64(rng.Intn(8)), int64(pickFrom(rng, []int{0, 1, 100}))}})
+			case 5:
+				steps = append(steps, kernel.Step{Op: "restart", A: []int64{int64(rng.Intn(3))}})
+			}
 		}
 	}
 	return &kernel.Plan{Cfg: cfg, Steps: steps}
